@@ -67,6 +67,30 @@
 //     ExportSpans; the nested End blocks in OnEnd, and every later Shutdown /
 //     Unregister of that processor blocks too) and from Export behind the
 //     log SimpleProcessor (OnEmit holds s.mu while it calls Export).
+//   - Re-entrant PROCESSORS: the Shutdown of one recording span processor
+//     (TProg.RecX) / log processor (kind rec_reentrant, LProg.RecX) calls back
+//     into the provider that is shutting it down (Shutdown, Tracer / Logger +
+//     telemetry, ForceFlush, Unregister of itself, Register of a fresh
+//     processor), with the context it was given. Nothing new is asserted for
+//     them: every call returns (watchdog), no panic, and the unchanged
+//     membership / exactly-once clauses. The span processor is never
+//     unregistered by such a program: UnregisterSpanProcessor shuts the
+//     processor down while it holds the provider mutex with the provider
+//     still up, so a call back into the provider from there blocks on the
+//     unchanged tree (a non-stock processor, outside the quantifier).
+//   - "already-cancelled contexts" comes in two spellings: cancelled
+//     (context.Canceled) and past its deadline (context.DeadlineExceeded); the
+//     telemetry calls (Start, Emit, Add / Record) are given such contexts too.
+//     A done context given to Start does not change which processors the span
+//     is delivered to (the statement has no such exception).
+//   - Degenerate stock configurations beyond nil exporters: the zero values
+//     of sdklog.SimpleProcessor / sdklog.BatchProcessor (no exporter, no
+//     queue), batch log processors with zero / negative / tiny sizes and
+//     intervals, stock readers that are never registered with a provider
+//     (Collect documents ErrReaderNotRegistered; their direct Shutdown still
+//     shuts the exporter down exactly once and Collect afterwards gives
+//     ErrReaderShutdown), readers built WithProducer. The external producer
+//     and the instrument kinds (Add and Record) add no assertion of their own.
 //   - Unregistering a processor of a non-comparable dynamic type that was
 //     never registered must not panic; REGISTERING such a processor is outside
 //     the quantifier ("every stock processor ... combination") and is not
@@ -82,21 +106,32 @@ import (
 	"sort"
 	"strconv"
 	"strings"
+	"time"
 
 	"go.opentelemetry.io/otel/verif/internal/vk"
 )
 
 const never = int64(1) << 62
 
-// mkCtx: 0 = live, anything else = already cancelled.
+// mkCtx: 0 = live, -2 = a context whose deadline has already expired
+// (Err() == context.DeadlineExceeded), anything else = already cancelled.
 func mkCtx(c int) context.Context {
-	if c == 0 {
+	switch c {
+	case 0:
 		return context.Background()
+	case -2:
+		ctx, cancel := context.WithDeadline(context.Background(), time.Unix(1, 0))
+		cancel() // the deadline has passed: Err() stays DeadlineExceeded
+		return ctx
 	}
 	ctx, cancel := context.WithCancel(context.Background())
 	cancel()
 	return ctx
 }
+
+// genDoneCtx draws the context of a flush / shutdown / collect op: live most
+// of the time, else already cancelled or already past its deadline.
+var doneCtxChoices = []int{0, 0, 0, 0, -1, -2}
 
 // callRec is one API call issued by the harness.
 type callRec struct {
@@ -139,10 +174,13 @@ func panicViolations(calls []*callRec) []vk.Violation {
 }
 
 func ctxName(c *callRec) string {
-	if c.C != 0 {
-		return "ctx=cancelled"
+	switch c.C {
+	case 0:
+		return "ctx=live"
+	case -2:
+		return "ctx=expired"
 	}
-	return "ctx=live"
+	return "ctx=cancelled"
 }
 
 func (c *callRec) String() string {
@@ -155,12 +193,10 @@ func (c *callRec) String() string {
 	}
 	s := fmt.Sprintf("t=%d..%d %s#%d %s x=%d", c.Start, c.End, who, c.I, c.K, c.X)
 	if c.K == "flush" || c.K == "shutdown" || c.K == "rshutdown" || c.K == "collect" {
-		if c.C != 0 {
-			s += " ctx=cancelled"
-		} else {
-			s += " ctx=live"
-		}
+		s += " " + ctxName(c)
 		s += fmt.Sprintf(" -> %v", c.Err)
+	} else if c.C != 0 {
+		s += " " + ctxName(c)
 	}
 	if c.K == "start" {
 		s += fmt.Sprintf(" tracer=%d recording=%v", c.T, c.Recording)
@@ -193,8 +229,8 @@ func okAfterDown(err error, cancelled bool, alsoOK ...error) bool {
 			return true
 		}
 	}
-	if cancelled && errors.Is(err, context.Canceled) {
-		return true
+	if cancelled && (errors.Is(err, context.Canceled) || errors.Is(err, context.DeadlineExceeded)) {
+		return true // the error of the done context the call was given
 	}
 	return false
 }
